@@ -501,7 +501,26 @@ func rangerPools(c *an.Ctx, rule string) {
 		for _, call := range p.CallsIn(gr, "(*sync.Pool).Get") {
 			gets = append(gets, call)
 		}
-		pr := p.ProbeFn(gr, gets, an.Hooks{})
+		// (a nil value of an interface type has no Range method to call whatever its type implements: a path on which
+		// the value is known to be one is not a path of a value that implements Ranger)
+		preds := nilIfacePreds(p, "")
+		var nilTests []*ast.CallExpr
+		an.InspectOwn(gr, func(nd ast.Node) bool {
+			if call, isCall := nd.(*ast.CallExpr); isCall {
+				if callee := an.Callee(ginfo, call); callee != nil && preds[callee] {
+					nilTests = append(nilTests, call)
+				}
+			}
+			return true
+		})
+		// (kept in a register from the test on: the variable is usually reassigned by the dereferencing step that follows)
+		pr := p.ProbeFn(gr, gets, an.Hooks{Branch: func(x *an.Explorer, cond ast.Expr, val bool, st *an.State) {
+			for _, nt := range nilTests {
+				if t, known := x.Truth(nt, st); known && t {
+					st.Set("nil-interface", "1")
+				}
+			}
+		}})
 		c.States += pr.X.Visited
 		okCustom := len(gets) > 0
 		for _, g := range gets {
@@ -514,6 +533,9 @@ func rangerPools(c *an.Ctx, rule string) {
 					if strings.Contains(an.PlainKey(k), ".Implements(rangerType)") && !v {
 						excluded = true
 					}
+				}
+				if st.Get("nil-interface") != "" {
+					excluded = true
 				}
 				if !excluded {
 					okCustom = false
